@@ -112,6 +112,15 @@ def win_cases(seed, big):
                          for _ in range(rng.randint(1, 3))]
         out.append({"id": "w%d" % i, "kind": "win", "argv": argv})
         i += 1
+    # units that are not text at all: unpaired UTF-16 surrogates (legal in Windows strings, e.g. ill-formed file names),
+    # alone, reversed pairs, beside the characters that force quoting
+    sur = [0xD83D, 0xDC00, 0xDBFF, 0xDFFF]
+    for u in sur:
+        for w in ([u], [u, 97], [32, u], [u, 34], [92, u, 92], [0xDC00, 0xD83D], [u, u], [97, 32, u, 92]):
+            out.append({"id": "w%d" % i, "kind": "win", "argv": [[97], w]})
+            i += 1
+    out.append({"id": "w%d" % i, "kind": "win", "argv": [[0xD83D], [98]]})
+    i += 1
     # NUL anywhere is rejected
     for argv in ([[97], [0]], [[97], [97, 0, 98]], [[0]], [[97], [98], [99, 0]],
                  # ... also behind a character that forces quoting, in a later argument, at the very end
